@@ -60,6 +60,12 @@ def _c06(tier):
     return c06.run(tier)
 
 
+def _c09(tier):
+    from . import c09
+
+    return c09.run(tier)
+
+
 CHECKS = {
     "C01": _keval("C01"),
     "C02": _keval("C02"),
@@ -68,6 +74,7 @@ CHECKS = {
     "C05": _c05,
     "C06": _c06,
     "C07": _c07,
+    "C09": _c09,
     "C10": _c10,
     "C11": _c11,
     "C12": _c12,
